@@ -138,6 +138,8 @@ type hookSpec struct {
 	// Rt (with k = "panic"): fail through a genuine Go run-time error instead of an explicit panic
 	// (an index out of range at index 1000+v of an empty slice, reported as "user:<v>")
 	Rt bool `json:"rt"`
+	// Nc (with k = "panic"): the value panicked with is of a type that is not comparable (UserPanicNC{v}, a slice)
+	Nc bool `json:"nc"`
 }
 
 type cmdSpec struct {
@@ -483,7 +485,7 @@ func shareDef[T any](key string, def []T, local map[string]interface{}) []T {
 // boolDest: a fresh *bool, or the one registered under the declaration's destshare key
 func boolDest(d *declSpec, shared map[string]interface{}) *bool {
 	if d.DestShare == "" || shared == nil {
-		return new(bool)
+		return stale(new(bool))
 	}
 	if p, ok := shared["dest:"+d.DestShare].(*bool); ok {
 		return p
@@ -493,10 +495,32 @@ func boolDest(d *declSpec, shared map[string]interface{}) *bool {
 	return p
 }
 
+// stale fills a destination that is about to be handed to a ...Ptr declaration with content the program left there
+// before: the declaration must replace it by the declared default (or the environment value)
+func stale[T any](p *T) *T {
+	switch q := any(p).(type) {
+	case *bool:
+		*q = true
+	case *string:
+		*q = "stale"
+	case *int:
+		*q = 99
+	case *float64:
+		*q = 9.5
+	case *[]string:
+		*q = []string{"stale", "content"}
+	case *[]int:
+		*q = []int{9, 8}
+	case *[]float64:
+		*q = []float64{9.5}
+	}
+	return p
+}
+
 // destOf: a fresh destination, or the one registered under the declaration's destshare key (kinds string, int, strings)
 func destOf[T any](d *declSpec, shared map[string]interface{}) *T {
 	if d.DestShare == "" || shared == nil {
-		return new(T)
+		return stale(new(T))
 	}
 	if p, ok := shared["dest:"+d.DestShare].(*T); ok {
 		return p
@@ -634,12 +658,12 @@ func declare(cmd *cli.Cmd, d *declSpec, path string, sharedDefs map[string]inter
 			var ptr *float64
 			switch {
 			case isOpt && d.Ptr:
-				ptr = new(float64)
+				ptr = stale(new(float64))
 				cmd.Float64OptPtr(ptr, name, def, desc)
 			case isOpt:
 				ptr = cmd.Float64Opt(name, def, desc)
 			case d.Ptr:
-				ptr = new(float64)
+				ptr = stale(new(float64))
 				cmd.Float64ArgPtr(ptr, name, def, desc)
 			default:
 				ptr = cmd.Float64Arg(name, def, desc)
@@ -656,7 +680,7 @@ func declare(cmd *cli.Cmd, d *declSpec, path string, sharedDefs map[string]inter
 		var ptr *float64
 		if d.Ptr {
 			var v float64
-			ptr = &v
+			ptr = stale(&v)
 			cmd.Float64Ptr(&v, p)
 		} else {
 			ptr = cmd.Float64(p)
@@ -711,12 +735,12 @@ func declare(cmd *cli.Cmd, d *declSpec, path string, sharedDefs map[string]inter
 			var ptr *[]int
 			switch {
 			case isOpt && d.Ptr:
-				ptr = new([]int)
+				ptr = stale(new([]int))
 				cmd.IntsOptPtr(ptr, name, def, desc)
 			case isOpt:
 				ptr = cmd.IntsOpt(name, def, desc)
 			case d.Ptr:
-				ptr = new([]int)
+				ptr = stale(new([]int))
 				cmd.IntsArgPtr(ptr, name, def, desc)
 			default:
 				ptr = cmd.IntsArg(name, def, desc)
@@ -739,7 +763,7 @@ func declare(cmd *cli.Cmd, d *declSpec, path string, sharedDefs map[string]inter
 		var ptr *[]int
 		if d.Ptr {
 			var v []int
-			ptr = &v
+			ptr = stale(&v)
 			cmd.IntsPtr(&v, p)
 		} else {
 			ptr = cmd.Ints(p)
@@ -762,12 +786,12 @@ func declare(cmd *cli.Cmd, d *declSpec, path string, sharedDefs map[string]inter
 			var ptr *[]float64
 			switch {
 			case isOpt && d.Ptr:
-				ptr = new([]float64)
+				ptr = stale(new([]float64))
 				cmd.Floats64OptPtr(ptr, name, def, desc)
 			case isOpt:
 				ptr = cmd.Floats64Opt(name, def, desc)
 			case d.Ptr:
-				ptr = new([]float64)
+				ptr = stale(new([]float64))
 				cmd.Floats64ArgPtr(ptr, name, def, desc)
 			default:
 				ptr = cmd.Floats64Arg(name, def, desc)
@@ -790,7 +814,7 @@ func declare(cmd *cli.Cmd, d *declSpec, path string, sharedDefs map[string]inter
 		var ptr *[]float64
 		if d.Ptr {
 			var v []float64
-			ptr = &v
+			ptr = stale(&v)
 			cmd.Floats64Ptr(&v, p)
 		} else {
 			ptr = cmd.Floats64(p)
@@ -888,6 +912,9 @@ func applyEnv(names map[string]bool, env map[string]B) (cleanup func()) {
 // UserPanic is the type of the values hooks panic with
 type UserPanic int
 
+// UserPanicNC: a panic value of a type that is not comparable (a slice), as a program that panics with a list of problems
+type UserPanicNC []int
+
 // exitSentinel is what the exit stub panics with
 type exitSentinel struct{ code int }
 
@@ -911,6 +938,10 @@ func classifyPanic(v interface{}) (outcome string, code int, text string) {
 		return "exit", x.code, ""
 	case UserPanic:
 		return "panic", 0, fmt.Sprintf("user:%d", int(x))
+	case UserPanicNC:
+		if len(x) == 1 {
+			return "panic", 0, fmt.Sprintf("user:%d", x[0])
+		}
 	case harnessError:
 		return "panic", 0, "harness:" + x.msg
 	case *runtime.PanicNilError:
@@ -986,6 +1017,9 @@ func (r *runCtx) hook(h *hookSpec, tag, path string, isAction bool, cmd *cli.Cmd
 			if h.Rt {
 				var empty []int
 				_ = empty[1000+h.V]
+			}
+			if h.Nc {
+				panic(UserPanicNC{h.V})
 			}
 			panic(UserPanic(h.V))
 		case "exit":
